@@ -66,7 +66,7 @@ def plan(prop, tier):
 
 
 # operands-focused exploration: every instrumented operation kind at the root, operand shapes below
-OPERANDS_Q = dict(scenario='block_expr', args=dict(policy=expr_profile([OPS, MID_SMALL + ['Array', 'Member'], LEAF], max_args=(2, 1, 0), props=['substring', 'concat', 'foo', 'call'])), label='operations x operand shapes, depth 3 (small alphabet)')
+OPERANDS_Q = dict(scenario='block_expr', args=dict(policy=expr_profile([OPS, MID_SMALL + ['Array', 'Member', 'Unary'], LEAF], max_args=(2, 1, 0), props=['substring', 'concat', 'foo', 'call'])), label='operations x operand shapes, depth 3 (small alphabet)')
 OPERANDS_T = dict(scenario='block_expr', args=dict(policy=expr_profile([OPS, MID, LEAF_EFF], max_args=(2, 1, 0))), label='operations x operand shapes, depth 3 (full alphabet, effectful leaves)')
 CONTEXTS_Q = dict(scenario='block_expr', args=dict(policy=expr_profile([CTX, OPS, LEAF], max_args=(1, 1, 0), props=['substring', 'foo'])), label='expression contexts x operations, depth 3')
 ALL_D2 = dict(scenario='block_expr', args=dict(policy=expr_profile([TOP_ALL, LEAF_EFF, LEAF], max_args=(2, 0, 0))), label='all expression kinds, depth 2')
@@ -267,3 +267,22 @@ PLANS['C12']['quick'] = PLANS['C12']['quick'] + [TRANSFORM_Q]
 PLANS['C12']['thorough'] = PLANS['C12']['thorough'] + [TRANSFORM_Q]
 PLANS['C13']['quick'] = PLANS['C13']['quick'] + [TRANSFORM_Q]
 PLANS['C13']['thorough'] = PLANS['C13']['thorough'] + [TRANSFORM_Q]
+
+
+# chain_source_maps
+from scenario import ChainScenario
+
+_prev_make5 = make_scenario
+
+
+def make_scenario(name, args):
+    if name == 'chain':
+        return ChainScenario(args.get('max_tokens', 2))
+    return _prev_make5(name, args)
+
+
+CHAIN_Q = dict(scenario='chain', args=dict(max_tokens=2), label='chain_source_maps: chain flag x original map present/absent x rewrite map parse ok/error x 1-2 tokens (symbolic 32-bit positions) x lookup hit/miss x original token with/without source (2 names) and name (2 names) x writer ok/error')
+CHAIN_T = dict(scenario='chain', args=dict(max_tokens=3), label='chain_source_maps: as quick with up to 3 tokens')
+PLANS['C10'] = {'quick': [EXTRACT_Q, CHAIN_Q], 'thorough': [EXTRACT_T, CHAIN_T]}
+PLANS['C13']['quick'] = PLANS['C13']['quick'] + [CHAIN_Q, LITERALS_Q]
+PLANS['C13']['thorough'] = PLANS['C13']['thorough'] + [CHAIN_T, LITERALS_Q]
